@@ -99,3 +99,28 @@ theorem Store.ask_wf (s : Store) (a : Ask) (h : s.wf = true) : (s.ask a).wf = tr
   | exemption n x => exact ⟨⟨⟨⟨⟨⟨⟨himp, hla⟩, hlw⟩, htr⟩, hpub⟩, hunp⟩, sortedKeys_pushEntry n x _ hex⟩, hpol⟩
 
 end Vet
+
+namespace Vet
+
+/-- C10 for `certify`, end to end on the model: a well-formed store that vets, the audit the user
+certifies pushed into audits.toml (`ask`), then the clean-up (`Cmd.run`): unless the new audit
+itself contradicts a violation, what is written vets successfully. -/
+theorem C10_certify_end_to_end_wf (w : World) (pkg : Nat) (a : Audit) (w' : World)
+    (hwf : w.store.wf = true)
+    (r : Report) (hr : resolve w = .ok r) (x y z : List Nat) (hsucc : r.conclusion = .success x y z)
+    (r₁ : Report) (hr₁ : resolve (w.ask (.audit pkg a)) = .ok r₁)
+    (hnoconf : ∀ (i : Nat) (p : PkgNode), r₁.graph.nodes[i]? = some p → p.thirdParty = true →
+      ∃ g, build (w.ask (.audit pkg a)).store r₁.mapper p.name = .ok (.graph g))
+    (hrun : (Cmd.certify pkg).run (w.ask (.audit pkg a)) = .ok (some w')) :
+    ∃ r' a' b' f', resolve w' = .ok r' ∧ r'.conclusion = .success a' b' f' := by
+  obtain ⟨x', y', z', hs₁⟩ := C10_certify_ask_keeps_passing_wf w pkg a hwf r hr x y z hsucc r₁ hr₁ hnoconf
+  have hwf₁ : (w.ask (.audit pkg a)).store.wf = true := Store.ask_wf w.store (.audit pkg a) hwf
+  unfold Cmd.run at hrun
+  cases hu : (Cmd.certify pkg).update (w.ask (.audit pkg a)) with
+  | error e => simp [hu] at hrun
+  | ok u =>
+    simp only [hu, Except.ok.injEq, Option.some.injEq] at hrun
+    subst hrun
+    exact C10_commands_wf (.certify pkg) rfl _ u hwf₁ hu r₁ hr₁ x' y' z' hs₁
+
+end Vet
